@@ -5,7 +5,6 @@ a script that writes brine-encoded, framed messages straight into the stream —
 Messages are written in *bursts*; after each burst the connection serves until its inbox is empty, so a request
 of the service to the peer (a callback) sees exactly the rest of the burst before it times out (virtual clock).
 """
-import os
 import struct
 import sys
 
@@ -246,19 +245,33 @@ def canary_service():
 
 
 CANARY_MODULES = ["c07canmod_a", "c07canmod_b"]
-_CANARY_DIR = None
+_FINDER = None
 
 
 def ensure_canary_modules():
-    """importable modules that must never get imported: importing one appends to its own log file"""
-    global _CANARY_DIR
-    if _CANARY_DIR is None:
-        import tempfile
-        _CANARY_DIR = tempfile.mkdtemp(prefix="c07mods")
-        for m in CANARY_MODULES:
-            with open(os.path.join(_CANARY_DIR, m + ".py"), "w") as f:
-                f.write("import handlers_world as _w\n_w.IMPORTED.append(%r)\nclass Boom(Exception):\n    pass\n" % m)
-        sys.path.append(_CANARY_DIR)
+    """importable modules that must never get imported (importing one appends its name to IMPORTED).  They exist only as
+    a meta-path finder of this process: no files, nothing to clean up."""
+    global _FINDER
+    if _FINDER is not None:
+        return
+    import importlib.abc
+    import importlib.machinery
+
+    class CanaryFinder(importlib.abc.MetaPathFinder, importlib.abc.Loader):
+        def find_spec(self, fullname, path=None, target=None):
+            if fullname in CANARY_MODULES:
+                return importlib.machinery.ModuleSpec(fullname, self)
+            return None
+
+        def create_module(self, spec):
+            return None
+
+        def exec_module(self, module):
+            IMPORTED.append(module.__name__)
+            exec("class Boom(Exception):\n    pass\n", module.__dict__)
+
+    _FINDER = CanaryFinder()
+    sys.meta_path.append(_FINDER)
 
 
 IMPORTED = []
